@@ -65,6 +65,27 @@ type env struct {
 	log      *simfw.Log
 	res      *simfw.Result
 	party    string
+	shared   map[ValOpts]*openapi3filter.Options // with shared_options: one Options value per option set, used by every validation of the run
+	curAuth  openapi3filter.AuthenticationFunc   // the callback of the request being validated (shared Options dispatch to it)
+}
+
+// optionsFor is the Options value a validation of the run proper is given: a
+// fresh one, or (shared_options) the one value a caller keeps for all its
+// requests, as a middleware does.
+func (e *env) optionsFor(v ValOpts, auth openapi3filter.AuthenticationFunc) *openapi3filter.Options {
+	if !e.s.SharedOptions {
+		return e.options(v, auth)
+	}
+	e.curAuth = auth
+	if o, ok := e.shared[v]; ok {
+		return o
+	}
+	if e.shared == nil {
+		e.shared = map[ValOpts]*openapi3filter.Options{}
+	}
+	o := e.options(v, func(ctx context.Context, in *openapi3filter.AuthenticationInput) error { return e.curAuth(ctx, in) })
+	e.shared[v] = o
+	return o
 }
 
 func (e *env) options(v ValOpts, auth openapi3filter.AuthenticationFunc) *openapi3filter.Options {
@@ -195,10 +216,32 @@ func (Sim) Run(raw json.RawMessage, prop string, keep bool) (res simfw.Result) {
 	docBytes := s.Doc.JSON()
 	world, err := LoadWorld(docBytes)
 	if err != nil {
+		if strings.HasPrefix(s.Doc.SecOp, "undecl") || strings.HasPrefix(s.Doc.SecDoc, "undecl") {
+			// a requirement naming a scheme the document does not declare: if this tree's document
+			// validation does not admit that, there is no validated document to speak about
+			d2 := s.Doc
+			if strings.HasPrefix(d2.SecOp, "undecl") {
+				d2.SecOp = "single"
+			}
+			if strings.HasPrefix(d2.SecDoc, "undecl") {
+				d2.SecDoc = "single"
+			}
+			if _, err2 := LoadWorld(d2.JSON()); err2 == nil {
+				res.Probe("shape-not-admitted-by-this-tree")
+				res.Class = simfw.ClassKey("not-admitted", s.Doc.SecOp, s.Doc.SecDoc)
+				return
+			}
+		}
 		res.Inconcl = "world: " + simfw.Trunc(err.Error(), 60)
 		return
 	}
 	world.PatchSecurity(s.Doc.SecOp)
+	if s.Prelude {
+		e.prelude()
+	}
+	if s.RejectedFirst && s.Leg != "response" {
+		e.rejectedFirst(world)
+	}
 	if s.Leg == "response" {
 		// a history of responses over one document: all validated first, bodies read afterwards
 		var backs []func()
@@ -255,6 +298,83 @@ func (Sim) Run(raw json.RawMessage, prop string, keep bool) (res simfw.Result) {
 	return
 }
 
+// prelude: the process has served a sibling API before (same names, other
+// defaults, see SDoc.Sibling). Nothing about these calls is judged; whatever the
+// library kept from them must not show in the run proper.
+func (e *env) prelude() {
+	s := e.s
+	sib := s.Doc.Sibling()
+	w, err := LoadWorld(sib.JSON())
+	if err != nil {
+		return
+	}
+	w.PatchSecurity(sib.SecOp)
+	e.res.Probe("prelude-sibling-document")
+	defer func() { recover() }()
+	if s.Leg == "response" {
+		method := s.Resp.Method
+		if method != "HEAD" {
+			method = "POST"
+		}
+		req := baseRequest(ReqSpec{}, method)
+		route, pp, err := w.Router.FindRoute(req)
+		if err != nil {
+			return
+		}
+		h := http.Header{}
+		for _, kv := range s.Resp.Headers {
+			if kv[0] != "" {
+				h.Add(kv[0], kv[1])
+			}
+		}
+		opts := e.options(s.Vals[0], nil)
+		openapi3filter.ValidateResponse(context.Background(), &openapi3filter.ResponseValidationInput{
+			RequestValidationInput: &openapi3filter.RequestValidationInput{Request: req, PathParams: pp, Route: route, Options: opts},
+			Status:                 s.Resp.Status, Header: h, Body: io.NopCloser(strings.NewReader(s.Resp.Body)), Options: opts,
+		})
+		return
+	}
+	q := s.Req
+	req := baseRequest(q, s.Doc.HTTPMethod())
+	if q.BodyMode == "stream" {
+		body := []byte(q.Body)
+		req.Body = io.NopCloser(bytes.NewReader(body))
+		req.ContentLength = int64(len(body))
+		req.GetBody = func() (io.ReadCloser, error) { return io.NopCloser(bytes.NewReader(body)), nil }
+	}
+	route, pp, err := w.Router.FindRoute(req)
+	if err != nil {
+		return
+	}
+	auth := func(context.Context, *openapi3filter.AuthenticationInput) error { return nil }
+	openapi3filter.ValidateRequest(context.Background(), &openapi3filter.RequestValidationInput{Request: req, PathParams: pp, Route: route, Options: e.options(ValOpts{}, auth)})
+}
+
+// rejectedFirst: the caller's first request on this document carries credentials
+// nobody accepts. It goes through the same Options values as the requests that
+// follow (when they are shared); nothing about it is judged.
+func (e *env) rejectedFirst(w *World) {
+	s := e.s
+	q := s.Req
+	req := baseRequest(q, s.Doc.HTTPMethod())
+	if q.BodyMode == "stream" {
+		body := []byte(q.Body)
+		req.Body = io.NopCloser(bytes.NewReader(body))
+		req.ContentLength = int64(len(body))
+		req.GetBody = func() (io.ReadCloser, error) { return io.NopCloser(bytes.NewReader(body)), nil }
+	}
+	route, pp, err := w.Router.FindRoute(req)
+	if err != nil {
+		return
+	}
+	defer func() { recover() }()
+	reject := func(context.Context, *openapi3filter.AuthenticationInput) error { return errors.New("rejected") }
+	for _, v := range s.Vals {
+		openapi3filter.ValidateRequest(context.Background(), &openapi3filter.RequestValidationInput{Request: req, PathParams: pp, Route: route, Options: e.optionsFor(v, reject)})
+	}
+	e.res.Probe("rejected-request-first")
+}
+
 // request runs the request leg once.
 // request runs the validations of one request; what the next handler then does
 // (read the forwarded body, with the checks on it) is returned as a closure, so
@@ -279,12 +399,6 @@ func (e *env) request(world *World, docBytes []byte, q ReqSpec, again bool) (han
 	}
 
 	// ---- neutral run (validation #1 only) ---------------------------------
-	neutralWorld, err := LoadWorld(docBytes)
-	if err != nil {
-		res.Inconcl = "neutral world: " + err.Error()
-		return
-	}
-	neutralWorld.PatchSecurity(s.Doc.SecOp)
 	var nCalls []authCall
 	nAuth := func(_ context.Context, in *openapi3filter.AuthenticationInput) error {
 		nCalls = append(nCalls, authCall{in.SecuritySchemeName, strings.Join(in.Scopes, ",")})
@@ -293,31 +407,53 @@ func (e *env) request(world *World, docBytes []byte, q ReqSpec, again bool) (han
 		}
 		return errors.New("rejected")
 	}
-	nreq := baseRequest(q, "POST")
-	switch q.BodyMode {
-	case "stream", "empty":
-		nreq.Body = io.NopCloser(bytes.NewReader(orig))
-		nreq.ContentLength = int64(len(orig))
-		body := orig
-		nreq.GetBody = func() (io.ReadCloser, error) { return io.NopCloser(bytes.NewReader(body)), nil }
-	case "nobody":
-		nreq.Body = http.NoBody
+	neutral := func(v ValOpts) (nverr error, ok bool) {
+		neutralWorld, err := LoadWorld(docBytes)
+		if err != nil {
+			res.Inconcl = "neutral world: " + err.Error()
+			return nil, false
+		}
+		neutralWorld.PatchSecurity(s.Doc.SecOp)
+		nreq := baseRequest(q, s.Doc.HTTPMethod())
+		switch q.BodyMode {
+		case "stream", "empty":
+			nreq.Body = io.NopCloser(bytes.NewReader(orig))
+			nreq.ContentLength = int64(len(orig))
+			body := orig
+			nreq.GetBody = func() (io.ReadCloser, error) { return io.NopCloser(bytes.NewReader(body)), nil }
+		case "nobody":
+			nreq.Body = http.NoBody
+		}
+		nroute, npp, nerr := neutralWorld.Router.FindRoute(nreq)
+		if nerr != nil {
+			res.Inconcl = "neutral route: " + nerr.Error()
+			return nil, false
+		}
+		func() {
+			defer func() {
+				if p := recover(); p != nil {
+					nverr = fmt.Errorf("neutral panic: %v", p)
+				}
+			}()
+			nverr = openapi3filter.ValidateRequest(context.Background(), &openapi3filter.RequestValidationInput{
+				Request: nreq, PathParams: npp, Route: nroute, Options: e.options(v, nAuth)})
+		}()
+		return nverr, true
 	}
-	nroute, npp, nerr := neutralWorld.Router.FindRoute(nreq)
-	if nerr != nil {
-		res.Inconcl = "neutral route: " + nerr.Error()
+	nverr, ok := neutral(s.Vals[0])
+	if !ok {
 		return
 	}
-	var nverr error
-	func() {
-		defer func() {
-			if p := recover(); p != nil {
-				nverr = fmt.Errorf("neutral panic: %v", p)
-			}
-		}()
-		nverr = openapi3filter.ValidateRequest(context.Background(), &openapi3filter.RequestValidationInput{
-			Request: nreq, PathParams: npp, Route: nroute, Options: e.options(s.Vals[0], nAuth)})
-	}()
+	// in fail-fast mode which failing part is named first is not the property's business (it may follow
+	// map order): the one part named has to be among all the failing parts, which a multi-error neutral run gives
+	nAllParts := parts(nverr)
+	if !s.Vals[0].MultiError && nverr != nil {
+		vm := s.Vals[0]
+		vm.MultiError = true
+		if all, ok := neutral(vm); ok && all != nil {
+			nAllParts = parts(all)
+		}
+	}
 
 	// ---- the simulated history ---------------------------------------------
 	zzsimrt.ResetMapOrder(s.MapSeed) // map iteration order inside the library is the simulator's choice
@@ -326,7 +462,7 @@ func (e *env) request(world *World, docBytes []byte, q ReqSpec, again bool) (han
 		res.Probe("map-order-permuted")
 	}
 	e.party = "client"
-	req := baseRequest(q, "POST")
+	req := baseRequest(q, s.Doc.HTTPMethod())
 	var st *simenv.Stream
 	switch q.BodyMode {
 	case "stream", "empty":
@@ -430,7 +566,7 @@ func (e *env) request(world *World, docBytes []byte, q ReqSpec, again bool) (han
 		e.party = fmt.Sprintf("validator#%d", i+1)
 		curVal = i
 		log.Add("sim", "validate", fmt.Sprintf("#%d %+v", i+1, v), "")
-		input := &openapi3filter.RequestValidationInput{Request: req, PathParams: pp, Route: route, Options: e.options(v, auth)}
+		input := &openapi3filter.RequestValidationInput{Request: req, PathParams: pp, Route: route, Options: e.optionsFor(v, auth)}
 		func() {
 			defer func() {
 				if p := recover(); p != nil {
@@ -487,8 +623,10 @@ func (e *env) request(world *World, docBytes []byte, q ReqSpec, again bool) (han
 		} else if (verdicts[0] == nil) != (nverr == nil) {
 			violate("C07", "verdict", fmt.Sprintf("verdict:%v-vs-neutral-%v", verdicts[0] == nil, nverr == nil),
 				fmt.Sprintf("validation #1 says %v; the same request as one in-memory chunk with a non-reading callback says %v (chunk plan %+v, GetBody=%q, ContentLength unknown=%v, auth=%v)", verdicts[0], nverr, q.Chunk, q.GetBody, q.CLUnknown, s.Auth))
-		} else if got, want := parts(verdicts[0]), parts(nverr); !reflect.DeepEqual(got, want) {
+		} else if got, want := parts(verdicts[0]), nAllParts; s.Vals[0].MultiError && !reflect.DeepEqual(got, want) {
 			violate("C07", "failing-parts", "failing-parts", fmt.Sprintf("failing parts %v; neutral run %v (multi-error=%v, auth=%v)", got, want, s.Vals[0].MultiError, s.Auth))
+		} else if !s.Vals[0].MultiError && !subset(got, want) {
+			violate("C07", "failing-parts", "failing-parts", fmt.Sprintf("fail-fast validation names %v, which is not among the failing parts %v of the neutral run (auth=%v)", got, want, s.Auth))
 		}
 		// the security part against the reference model of the requirement semantics
 		wantSecOK := SecurityModel(s.Doc, func(name string, scopes []string) bool { return acceptsScoped(s.Auth[name], scopes) })
@@ -757,6 +895,19 @@ func rewriteFailed(err error) bool {
 	return false
 }
 
+func subset(a, b []string) bool {
+	in := map[string]bool{}
+	for _, x := range b {
+		in[x] = true
+	}
+	for _, x := range a {
+		if !in[x] {
+			return false
+		}
+	}
+	return true
+}
+
 func readOrder(n int, reverse bool) []int {
 	out := make([]int, n)
 	for i := range out {
@@ -915,7 +1066,7 @@ func (e *env) checkIdempotent(docBytes []byte, q ReqSpec, after snapshot, final 
 		return
 	}
 	w.PatchSecurity(e.s.Doc.SecOp)
-	req, _ := http.NewRequest("POST", "http://sim.test/thing", bytes.NewReader(final))
+	req, _ := http.NewRequest(e.s.Doc.HTTPMethod(), "http://sim.test/thing", bytes.NewReader(final))
 	req.Host = "sim.test"
 	req.URL.Scheme, req.URL.Host = "", ""
 	req.URL.RawQuery = after.RawQuery
@@ -1019,6 +1170,38 @@ func (e *env) response(world *World, docBytes []byte, p RespSpec, again bool) (r
 		nverr = openapi3filter.ValidateResponse(context.Background(), nin)
 	}()
 
+	// does the verdict depend on the body at all? It does if the same validation rejects some other body
+	// (none, garbage of the same length, the delivered prefix) while it accepts the intact one.
+	dependsOnBody := func() bool {
+		alts := [][]byte{{}, bytes.Repeat([]byte{'<'}, len(orig)+1)}
+		if fa := p.Chunk.FaultAt; fa > 0 && fa < len(orig) {
+			alts = append(alts, orig[:fa])
+		}
+		for _, alt := range alts {
+			aw, err := LoadWorld(docBytes)
+			if err != nil {
+				continue
+			}
+			ain, err := mkInput(aw, io.NopCloser(bytes.NewReader(alt)))
+			if err != nil {
+				continue
+			}
+			rejected := false
+			func() {
+				defer func() {
+					if r := recover(); r != nil {
+						rejected = true
+					}
+				}()
+				rejected = openapi3filter.ValidateResponse(context.Background(), ain) != nil
+			}()
+			if rejected {
+				return true
+			}
+		}
+		return false
+	}
+
 	zzsimrt.ResetMapOrder(s.MapSeed)
 	defer zzsimrt.ResetMapOrder(0)
 	e.party = "validator"
@@ -1067,8 +1250,8 @@ func (e *env) response(world *World, docBytes []byte, p RespSpec, again bool) (r
 	}
 	if st.FaultFired {
 		res.Fault("respbody_" + p.Chunk.FaultKind)
-		if verr == nil && nst.Reads > 0 && nverr == nil {
-			// (asserted only where the verdict depends on the bytes: the same validation over the intact body had to read it)
+		if verr == nil && nverr == nil && dependsOnBody() {
+			// (asserted only where the verdict depends on the bytes: the same validation rejects some other body)
 			violate("fault-accept", "accept-after-stream-error", fmt.Sprintf("ValidateResponse accepted although a Read it issued returned %q and the verdict depends on the body", p.Chunk.FaultKind))
 		} else if verr == nil && nverr != nil {
 			violate("fault-accept", "accept-after-stream-error", fmt.Sprintf("ValidateResponse accepted a response whose intact body it rejects, after a Read it issued returned %q", p.Chunk.FaultKind))
